@@ -642,7 +642,24 @@ class State(object):
         atoms = set(lin.co)
         rel = []
         changed = True
-        facts = list(self.facts) + self._derived_facts(atoms)
+        facts = list(self.facts)
+        if self.eq:
+            # a fact may speak of an atom the path has since learnt to equal another term (`cap == k_exit`): the queried
+            # expression is canonical, so the facts are rewritten the same way
+            for i, f in enumerate(facts):
+                if any(a in self.eq for a in f.co):
+                    try:
+                        l = Lin({}, f.k)
+                        for a, c in f.co.items():
+                            r = self.canon(a) if a in self.eq else a
+                            if r[0] in ('ptr', 'pset', 'fn'):
+                                raise ValueError
+                            l = l.add(lin_of(r), c)
+                        if not l.is_const():
+                            facts.append(l)
+                    except Exception:
+                        pass
+        facts = facts + self._derived_facts(atoms)
         derived_for = set(atoms)
         used = set()
         while changed:
